@@ -404,17 +404,23 @@ def r202(ctx, rep, f, ev, cg, reach):
         if p not in f.fns:
             rep.missing("R20.2", p)
             continue
+        # decided on the two cases of the option: evaluated with checks_toml = None and = Some(path), the parsed file
+        # (the OnceLock's content) being a CustomChecks whose fields are distinct symbols
+        from ..thir import Agg as _Agg
+        parsed = _Agg(CC, "CustomChecks", {o: Sym("FIELD_%s" % o) for o in KEYS})
+        ev.call_hooks = [(lambda fn, res: fn.endswith("OnceLock::<T>::get"), lambda n, a: _Agg("core::option::Option", "Some", {"0": parsed}))]
+        res = {}
         try:
-            v = ev.call_fn(p, [Sym("self")])
-            k = vkey(v)
-        except Unsupported as e:
-            k = "unevaluable: %s" % e
-        m = re.fullmatch(r"sym\(ite\(symc\(isSome\(sym\(self\.checks_toml\)\)\),(.*),Option::None\(\)\)\)", k)
-        ok = False
-        if m:
-            inner = m.group(1)
-            ok = ("CUSTOM_CHECKS" in inner or "custom_checks" in inner) and bool(re.search(r"\.%s\b" % key, inner)) and \
-                not any(re.search(r"\.%s\b" % o, inner) for o in KEYS if o != key)
+            for case, ct in (("none", _Agg("core::option::Option", "None", {})), ("some", _Agg("core::option::Option", "Some", {"0": Sym("PATH")}))):
+                try:
+                    res[case] = vkey(ev.call_fn(p, [_Agg("fastpasta::config::Cfg", "Cfg", {"checks_toml": ct})]))
+                except Unsupported as e:
+                    res[case] = "unevaluable: %s" % e
+        finally:
+            ev.call_hooks = []
+        k = "without checks file: %s; with: %s" % (res["none"], res["some"])
+        ok = res["none"] == "Option::None()" and ("FIELD_%s" % key) in res["some"] and not any(("FIELD_%s" % o) in res["some"] for o in KEYS if o != key) \
+            and "unevaluable" not in res["some"] and "ite(" not in res["some"]
         rep.check(ok, "R20.2", "R20.2|accessor|Cfg::%s" % key, "Cfg::%s = checks_toml.is_some() ? CUSTOM_CHECKS.%s : None" % (key, key), W,
                   "Cfg::%s is not `None unless a checks file was given, else the parsed file's %s`: %s" % (key, key, k[:300]))
     # custom_checks_enabled: is_some_and(|c| *c != default)
